@@ -40,7 +40,7 @@ func chainsToPool(leaf, inter *x509.Certificate, pool []*x509.Certificate) bool 
 }
 
 func C02(c *core.Ctx) {
-	c.Rule = "pairs (quote under PKI A, trusted pool from PKI B / nothing (embedded Intel root) / A / A+B / only A's intermediate / only A's leaf); every substitution of one chain element by its same-named look-alike from PKI B; role-confusion chains (TCB-signing certificate or a CA certificate as 'leaf', leaf issued directly by the root, wrong leaf CN, Processor-CA intermediate); root-of-trust configurations (nil, files, inline, mixed, duplicate, empty, non-PEM, unreadable) through verify.RootOfTrustToOptions. Ground truth: an accepted quote's chain really chains to a pool certificate and its leaf has the PCK role; a configuration trusts exactly the listed certificates. non-trivial = every case; distinct = distinct (quote, pool)"
+	c.Rule = "pairs (quote under PKI A, trusted pool from PKI B / nothing (embedded Intel root) / A / A+B / only A's intermediate / only A's leaf); every substitution of one chain element by its same-named look-alike from PKI B; role-confusion chains (TCB-signing certificate or a CA certificate as 'leaf', leaf issued directly by the root, wrong leaf CN, Processor-CA intermediate); one options value re-used while its trusted pool is replaced (A, B, A, empty, A+B); root-of-trust configurations (nil, files, inline, mixed, duplicate, empty, non-PEM, unreadable) through verify.RootOfTrustToOptions. Ground truth: an accepted quote's chain really chains to a pool certificate and its leaf has the PCK role; a configuration trusts exactly the listed certificates. non-trivial = every case; distinct = distinct (quote, pool)"
 	r := c.Rng
 	mkPKI := func(proc bool) *world.PKI {
 		p, err := world.NewPKI(r, world.PKIOpts{Now: baseTime, Ext: world.RandomSGXExt(r), Processor: proc})
@@ -101,6 +101,44 @@ func C02(c *core.Ctx) {
 				}
 				return ""
 			}, true)
+		}
+		// one long-lived options value whose trusted pool is replaced between verifications (a CA
+		// bundle reload): every call is judged against the pool in force at that call
+		for _, pinned := range []bool{true, false} {
+			ts := &verify.TimeSet{PckCertChain: baseTime, TcbInfo: baseTime, QeIdentity: baseTime, PckCrl: baseTime, RootCaCrl: baseTime}
+			shared := &verify.Options{TrustedRoots: A.RootPool()}
+			if pinned {
+				shared.Now = ts
+			}
+			seq := []struct {
+				name string
+				pool *x509.CertPool
+				want bool
+			}{{"A", A.RootPool(), true}, {"B", B.RootPool(), false}, {"A again", A.RootPool(), true}, {"empty", x509.NewCertPool(), false}, {"A+B", func() *x509.CertPool {
+				p := x509.NewCertPool()
+				p.AddCert(B.Root.Cert)
+				p.AddCert(A.Root.Cert)
+				return p
+			}(), true}}
+			gt := ""
+			var trace []string
+			for _, st := range seq {
+				shared.TrustedRoots = st.pool
+				var err error
+				pan := safely(func() { err = verify.RawTdxQuote(wA.Quote.Raw, shared) })
+				trace = append(trace, fmt.Sprintf("%s:%v", st.name, err == nil && pan == nil))
+				switch {
+				case pan != nil:
+					gt = fmt.Sprintf("verification panicked: %v", pan)
+				case (err == nil) && !st.want && gt == "":
+					gt = "after the trusted pool of a re-used options value was replaced by " + st.name + ", a quote that does not chain to it is still accepted"
+				case (err != nil) && st.want && gt == "" && (pinned || true):
+					if pinned {
+						gt = "a quote that chains to the pool now in force (" + st.name + ") is rejected through the re-used options value: " + err.Error()
+					}
+				}
+			}
+			c.Add(&core.Case{Class: "pool-history", Desc: fmt.Sprintf("shared options, pinned time=%v: %v", pinned, trace), SkipModel: true, Impl: core.Ls(), GT: gt, NonTrivial: true})
 		}
 		// look-alike substitution of one chain element (quote otherwise untouched: signed by A's leaf key)
 		build := func(chain []byte, pckKey *world.Cert) []byte {
